@@ -28,7 +28,7 @@ ASSUMPTIONS = ['grids carry no repeated values (the table key must identify the 
                'workers are forked (Linux default), so the score table set before the call is visible to them']
 FLOORS = {'quick': {'searches': 300, 'parallel_searches': 150, 'results_checked': 1500, 'mode_0': 15, 'mode_1': 15, 'mode_2': 15, 'mode_3': 15,
                     'mode_4': 15, 'mode_5': 15, 'mode_6': 15, 'mode_7': 15, 'tied_optimum': 40, 'optimum_last': 30, 'optimum_first': 30,
-                    'optimum_middle': 20, 'beyond_maxsize_tables': 40, 'style_bigint': 20, 'style_nearmax': 8, 'limit_below_completion': 30,
+                    'optimum_middle': 20, 'beyond_maxsize_tables': 40, 'seeded_grids': 40, 'parameter_list_reused': 80, 'style_bigint': 20, 'style_nearmax': 8, 'limit_below_completion': 30,
                     'reach:Batching.grid_search': 300, 'reach:Batching._score_model_for_search': 1500},
           'thorough': {'searches': 12000, 'parallel_searches': 6000}}
 EXHAUSTIVE = {}
@@ -99,6 +99,9 @@ def case_search(ctx, case):
     stop = rng.choice([0, 0, 1, 3])
     lim = rng.choice([None, None, stop + 2, stop + 1, max(0, stop - 1), stop])
     grid['stop'] = stop
+    if rng.random() < 0.35 and total * 2 <= 12:
+        grid['seed'] = rng.sample([0, 1, 7, 2 ** 33], 2) if rng.random() < 0.7 else 0      # forwarded to Model(seed=...)
+        ctx.count('seeded_grids')
     style = rng.choice(['dyadic', 'dyadic', 'int', 'wild', 'huge', 'hugeneg', 'hugepos', 'bigint'] + (['nearmax'] if mode < 4 else []))
     ctx.count('style_' + style)
     combos = batching.ParameterList(dict(grid)).build() if False else None
@@ -112,7 +115,16 @@ def case_search(ctx, case):
     rows = gen_table(rng, n, reps, style, mode)
     bm.TABLE.clear()
     for combo, row in zip(ref, rows):
-        bm.TABLE[bm.pkey(combo)] = row
+        bm.TABLE[bm.pkey(combo)] = list(row)
+    if 'seed' in grid:
+        import random as _random
+        if style not in ('dyadic', 'int'):
+            style = 'dyadic'
+            rows = gen_table(rng, n, reps, style, mode)
+            for combo, row in zip(ref, rows):
+                bm.TABLE[bm.pkey(combo)] = list(row)
+        # what the score function returns: table value + a draw from the model's generator seeded with the combination's seed
+        rows = [[v + int(_random.Random(combo['seed']).random() * 64) / 8 for v in row] for combo, row in zip(ref, rows)]
     bm.EXPECT_T[0] = (lim if lim is not None and lim <= stop else stop + 1)
     if lim is not None and lim <= stop:
         ctx.count('limit_below_completion')
@@ -120,14 +132,17 @@ def case_search(ctx, case):
     exact = [exact_aggregate(r, mode) for r in rows]
     outcomes = []
     procs_list = [1, rng.choice([2, 4, 8, 16])]
+    shared_pl = None
+    if rng.random() < 0.5:
+        shared_pl = batching.ParameterList()          # ONE ParameterList object used for both searches
+        for k_, v_ in grid.items():
+            shared_pl.add_parameter(k_, v_)
+        ctx.count('parameter_list_reused')
+    if rng.random() < 0.5:
+        procs_list = procs_list[::-1]
     for procs in procs_list:
         bm.COUNTS.clear()
-        params = dict(grid)
-        if rng.random() < 0.4:
-            pl = batching.ParameterList()
-            for k_, v_ in grid.items():
-                pl.add_parameter(k_, v_)
-            params = pl
+        params = shared_pl if shared_pl is not None else dict(grid)
         kw = dict(processes=procs, repetitions=reps, mode=batching.ScoreMode(mode))
         if lim is not None:
             kw['max_timesteps'] = lim
@@ -166,7 +181,7 @@ def case_search(ctx, case):
             ctx.count('tied_optimum')
         ctx.count('optimum_first' if first == 0 else ('optimum_last' if first == n - 1 else 'optimum_middle'))
     if outcomes[0] != outcomes[1]:
-        raise CaseViolation(f'serial and {procs_list[1]}-process grid search differ', serial=outcomes[0], parallel=outcomes[1], grid=grid,
+        raise CaseViolation(f'serial and {max(procs_list)}-process grid search differ', serial=outcomes[0], parallel=outcomes[1], grid=grid,
                             mode=mode)
     beyond = all(abs(float(e)) > sys.maxsize for e in exact)
     if beyond:
